@@ -537,7 +537,7 @@ class Builder:
             ent = self.new_ent(name, kind, sc, vis=vis, typ=("type", t))
             sc.declared[name.lower()] = ent
             self.emit("type(", Ref(t, "typeref", self.spelling_in(sc, t)), ")" + (f", {vis}" if vis else "") + " :: ", Ref(ent, "decl"),
-                      kind="decl", depth=depth)
+                      kind="decl", depth=depth, simple=True)
         else:
             t = self.d_pick([T_INT, T_INT, T_REAL])
             const = self.d_bool(5)
@@ -546,7 +546,7 @@ class Builder:
             toks = [t + (", parameter" if const else "") + (f", {vis}" if vis else "") + " :: ", Ref(ent, "decl")]
             if const:
                 toks.append(" = 3" if t == T_INT else " = 1.5")
-            self.emit(*toks, kind="decl", depth=depth)
+            self.emit(*toks, kind="decl", depth=depth, simple=True)
         return ent
 
     def gen_loopvars(self, sc, depth):
